@@ -100,9 +100,12 @@ Lemma repo_run_example :
   end.
 Proof. vm_compute. repeat split; reflexivity. Qed.
 
-(* ... and when the index first answers 503 and 404 (fewer failures than the retry budget): same result *)
+(* ... and when the index first answers 503, then breaks off after 4 bytes, then 404 (fewer failures than the
+   retry budget): same result *)
 Definition ex_u_flaky : upstream :=
-  [("d/by-hash/SHA256/ab", {| first := [{| pre_retries := 0; rbody := BError |}; {| pre_retries := 0; rbody := BMissing |}];
+  [("d/by-hash/SHA256/ab", {| first := [{| pre_retries := 0; rbody := BError |};
+                                        {| pre_retries := 0; rbody := BOk (Some 10%N) (Some 1700000001%Z) 4 true |};
+                                        {| pre_retries := 0; rbody := BMissing |}];
                               rest := {| pre_retries := 0; rbody := BOk (Some 10%N) (Some 1700000001%Z) 10 false |} |});
    ("pool/a.deb", {| first := []; rest := {| pre_retries := 0; rbody := BOk (Some 7%N) None 7 false |} |})].
 Lemma repo_run_flaky_example :
@@ -111,8 +114,8 @@ Lemma repo_run_flaky_example :
 Proof.
   split; [vm_compute; reflexivity|].
   split; [reflexivity|]. split; [discriminate|]. split; [reflexivity|].
-  exists [], "d/by-hash/SHA256/ab", ["d/Packages.xz"], 2.
+  exists [], "d/by-hash/SHA256/ab", ["d/Packages.xz"], 3.
   split; [reflexivity|]. split; [reflexivity|]. split; [unfold max_tries; repeat constructor|].
   split; [right; split; reflexivity|]. split; [|reflexivity].
-  intros j Hj. destruct j as [|[|j]]; [reflexivity|reflexivity|exfalso; inversion Hj as [|? H1]; inversion H1 as [|? H2]; inversion H2].
+  intros j Hj. destruct j as [|[|[|j]]]; try reflexivity. exfalso. repeat (apply le_S_n in Hj). inversion Hj.
 Qed.
